@@ -5,15 +5,35 @@
 
 package lsp
 
-// bytes.Buffer as an opaque accumulator: only what the splice needs (no panic, Bytes returns some slice).
+// assumed: bytes.Buffer is an append-only byte sequence (content lb_dat[ref], length lb_len[ref])
+//@ ghost lb_len (Array Int Int) allocinit 0
+//@ ghost lb_dat (Array Int (Array Int Int))
 //@ extern (*bytes.Buffer).Write
+//@   mode int
+//@   ensures forall k Int {lb_dat[b][k]} :: 0 <= k && k < old(lb_len)[b] ==> lb_dat[b][k] == old(lb_dat)[b][k]
+//@   ensures forall k Int {lb_dat[b][k]} :: old(lb_len)[b] <= k && k < old(lb_len)[b] + len(p) ==> lb_dat[b][k] == arr(p)[off(p) + k - old(lb_len)[b]]
+//@   sets lb_len = store(old(lb_len), b, old(lb_len)[b] + len(p))
+//@   modifies lb_dat
 //@   trusted
 //@ extern (*bytes.Buffer).WriteString
+//@   mode int
+//@   ensures forall k Int {lb_dat[b][k]} :: 0 <= k && k < old(lb_len)[b] ==> lb_dat[b][k] == old(lb_dat)[b][k]
+//@   ensures forall k Int {lb_dat[b][k]} :: old(lb_len)[b] <= k && k < old(lb_len)[b] + len(s) ==> lb_dat[b][k] == int(s[k - old(lb_len)[b]])
+//@   sets lb_len = store(old(lb_len), b, old(lb_len)[b] + len(s))
+//@   modifies lb_dat
 //@   trusted
 //@ extern (*bytes.Buffer).Bytes
 //@   mode int
-//@   ensures isfresh(result)
+//@   ensures isfresh(result) && off(result) == 0 && arr(result) == lb_dat[b] && len(result) == lb_len[b]
+//@   pure
 //@   trusted
+
+// splice_ok(res, d, o, n, st, en, text): res is d[o .. o+st) ++ text ++ d[o+en .. o+n)
+//@ spec splice_ok(res []byte, d (Array Int Int), o Int, n Int, st Int, en Int, text string) bool :=
+//@      len(res) == st + len(text) + (n - en) &&
+//@      (forall k Int :: 0 <= k && k < st ==> int(res[k]) == d[o+k]) &&
+//@      (forall k Int :: 0 <= k && k < len(text) ==> int(res[st+k]) == int(text[k])) &&
+//@      (forall k Int :: 0 <= k && k < n - en ==> int(res[st+len(text)+k]) == d[o+en+k])
 //@ extern fmt.Errorf
 //@   ensures result != nil
 //@   pure
@@ -26,6 +46,9 @@ package lsp
 //@   mode int
 //@   requires s != nil
 //@   loop 0 invariant -1 <= rangeindex && rangeindex < len(changes)
+//@   loop 0 invariant rangeindex == 0 ==> splice_ok(content, ro_dat, ro_off, ro_len, ro_start, ro_end, changes[0].Text) && 0 <= ro_start && ro_start <= ro_end && ro_end <= ro_len
+//@   ensures[splice1] err == nil && len(changes) == 1 ==> splice_ok(result, ro_dat, ro_off, ro_len, ro_start, ro_end, changes[0].Text) && 0 <= ro_start && ro_start <= ro_end && ro_end <= ro_len
+//@   results result, err
 //@   noframe
 //@   safe
 //@   property C21
